@@ -13,7 +13,7 @@ RULE = ("Models, initial states, parameters and seeds as in C04; output grids of
         "random stream - re-seed and run solve_stochast(grid[-1], n, exact=True, full_output=True) to obtain the raw path (same loop, "
         "same draws), then row k must equal the raw state at the last event time <= t_k, the counts of interval k must equal the "
         "per-transition sums of raw counts with event time in (t_k, t_{k+1}], hence X[k+1]-X[k] == V*counts[k]; shape (len(grid), nS), "
-        "first row x0 when the grid starts at t0 (otherwise row 0 is decided by the row lookup like every other row; events before the first grid time belong to no interval). Tau mode: shape, first row, each row between the neighbouring raw states (interpolation), counts rows sum to at most the raw totals. "
+        "the default call without full_output on the same stream returns exactly the state arrays (1 case in 3); first row x0 when the grid starts at t0 (otherwise row 0 is decided by the row lookup like every other row; events before the first grid time belong to no interval). Tau mode: shape, first row, each row between the neighbouring raw states (interpolation), counts rows sum to at most the raw totals. "
         "Non-trivial = exact mode with >=2 different events firing in >=2 different intervals; distinct by case hash.")
 ASSUMPTIONS = [
     "grids start at or after the initial time (documented usage: t = linspace(t0, ...), or t[1::] of it)",
@@ -56,7 +56,8 @@ def strategy(tier):
              "exact": draw(st.sampled_from([True, True, True, False])),
              "iters": draw(st.integers(1, 2)),
              # any truthy value selects the exact algorithm: the literal True, 1, or a NumPy bool from a comparison
-             "exact_spelling": draw(st.sampled_from(["True", "True", "1", "np.bool_"]))}
+             "exact_spelling": draw(st.sampled_from(["True", "True", "1", "np.bool_"])),
+             "also_default_output": draw(st.integers(0, 2)) == 0}
         if draw(st.integers(0, 2)) == 0:
             # magnitudes carried by parameters, and a SECOND gridded call on the same object after the parameters (incl. those
             # magnitudes) were re-assigned: the second output must follow the model's current state-change matrix
@@ -107,6 +108,11 @@ def _check_call(case, rec, model, order, su, grid_type, tag):
             rec.label("exact-flag:" + case.get("exact_spelling", "True"))
         out = stoch.simulate("C15", key, case, model.solve_stochast, g_arg, case["iters"], exact=ex_arg, full_output=True, parallel=False)
         raw = stoch.simulate("C15", key + "/raw", case, stoch.run_raw, model, float(grid[-1]), case["iters"], exact, su["np_seed"])
+        plain = None
+        if case.get("also_default_output"):
+            # the default call (full_output left out) on the same random stream returns just the state arrays
+            np.random.seed(su["np_seed"])
+            plain = stoch.simulate("C15", key + "/default-output", case, model.solve_stochast, g_arg, case["iters"], exact=ex_arg, parallel=False)
     except stoch.StepBudget:
         raise Inconclusive("step budget")
     try:
@@ -117,6 +123,13 @@ def _check_call(case, rec, model, order, su, grid_type, tag):
         raise PropertyViolation(key + "/iterations", "asked %d runs, got %d" % (case["iters"], len(Xg)), case)
     if not np.array_equal(np.asarray(Tg, float), grid):
         raise PropertyViolation(key + "/times", "returned times %s are not the requested grid" % (Tg,), case)
+    if plain is not None:
+        rec.label("default-output-compared")
+        if not isinstance(plain, (list, tuple)) or len(plain) != case["iters"] or any(
+                np.asarray(a).shape != np.asarray(b).shape or not np.array_equal(np.asarray(a, float), np.asarray(b, float))
+                for a, b in zip(plain, Xg)):
+            raise PropertyViolation(key + "/default-output", "solve_stochast(grid, n) without full_output does not return the state arrays "
+                                    "of the full-output call on the same random stream", case)
     nontrivial = False
     for it in range(case["iters"]):
         X = np.asarray(Xg[it], float)
